@@ -234,10 +234,10 @@ func checkC08(c *C08Case) (string, c08Facts) {
 		proxy.set(backend)
 		proxy.count = true
 		seen := map[string]map[string]bool{} // type -> tags validated so far under this backend
-		for k := range rmSlots { // rule-map objects live as long as one history
+		for k := range rmSlots {             // rule-map objects live as long as one history
 			delete(rmSlots, k)
 		}
-		inst, names := c.instantiate()       // fresh names for late registrations, per configuration
+		inst, names := c.instantiate() // fresh names for late registrations, per configuration
 		for i, step := range inst.flatten() {
 			if step.reg != "" {
 				register(step.reg)
